@@ -145,4 +145,84 @@ PROPS = {
             "and is exercised by the gen/state streams of C01",
         ],
     },
+    "C04": {
+        "modules": [T + "C04"],
+        "theorems": [(T + "C04.tables", T + "C04"),
+                     (T + "C04.encode_eq_spec", T + "C04"),
+                     (T + "C04.toText_eq_spec", T + "C04"),
+                     (T + "C04.format_length", T + "C04"),
+                     (T + "C04.format_charset", T + "C04"),
+                     (T + "C04.parse_format", T + "C04"),
+                     (T + "C04.format_parse", T + "C04"),
+                     (T + "C04.parse_wf", T + "C04"),
+                     (T + "C04.parse_injective_up_to_case_and_prefix", T + "C04")],
+        "extract_keys": ["HEX_", "decode_digit", "hash prefix", "LEN_IN_STR"],
+        "spec_is_property": True,
+        "streams": {
+            "quick": [(c, "fmt", 400) for c in ['default', 'optdef', 'embedded', 'quarter', 'mintab', 'hexsimd-only']] + [(c, "parse", 1500) for c in ['default', 'optdef', 'embedded', 'quarter', 'mintab', 'hexsimd-only']],
+            "thorough": [(c, "fmt", 10000) for c in ['default', 'optdef', 'embedded', 'quarter', 'mintab', 'hexsimd-only']] + [(c, "parse", 30000) for c in ['default', 'optdef', 'embedded', 'quarter', 'mintab', 'hexsimd-only']]
+                        + [("unsafe", "fmt", 5000), ("naive", "fmt", 5000), ("default-dev", "fmt", 3000)],
+        },
+        "assumptions": ["hex_simd::encode/decode are modelled by their contract (third-party crate); exercised in "
+                        "configurations default and hexsimd-only",
+                        "Display/to_string/FromStr/from_str_with are thin wrappers around store_into_str_bytes / "
+                        "from_str_bytes; their agreement is checked by direct oracles in the probe"],
+    },
+    "C05": {
+        "modules": [T + "C05", T + "C04"],
+        "theorems": [(T + "C05.parse_total", T + "C05"),
+                     (T + "C05.parse_ok_iff", T + "C05"),
+                     (T + "C05.parse_value", T + "C05"),
+                     (T + "C05.parse_err_length", T + "C05"),
+                     (T + "C05.parse_err_applicable", T + "C05"),
+                     (T + "C04.tables", T + "C04")],
+        "extract_keys": ["HEX_", "decode_digit", "hash prefix", "LEN_IN_STR"],
+        "spec_is_property": True,
+        "streams": {
+            "quick": [(c, "parse", 3000) for c in ['default', 'optdef', 'embedded', 'quarter', 'mintab', 'hexsimd-only']] + [(c, "parse-sweep", 24) for c in ['default', 'optdef', 'embedded', 'quarter', 'mintab', 'hexsimd-only']],
+            "thorough": [(c, "parse", 60000) for c in ['default', 'optdef', 'embedded', 'quarter', 'mintab', 'hexsimd-only']] + [(c, "parse-sweep", 1) for c in ['default', 'optdef', 'embedded', 'quarter', 'mintab', 'hexsimd-only']]
+                        + [("unsafe", "parse", 20000), ("naive", "parse", 20000), ("default-dev", "parse-sweep", 4)],
+        },
+        "rule": "parse-sweep: one valid text per variant and prefix mode, every `step`-th position set to each of "
+                "the 256 byte values (thorough: every position)",
+        "assumptions": ["hex_simd::decode by contract"],
+    },
+    "C06": {
+        "modules": [T + "C06", T + "C04"],
+        "theorems": [(T + "C06.tryFrom_bytes", T + "C06"),
+                     (T + "C06.tryFrom_store", T + "C06"),
+                     (T + "C06.store_tryFrom", T + "C06"),
+                     (T + "C06.tryFrom_slice_len", T + "C06"),
+                     (T + "C06.tryFrom_total", T + "C06"),
+                     (T + "C06.quartile_spec", T + "C06"),
+                     (T + "C06.hex_eq_swapped_header", T + "C06"),
+                     (T + "C06.clear_checksum_spec", T + "C06"),
+                     (T + "C04.encode_eq_spec", T + "C04")],
+        "spec_is_property": True,
+        "streams": {
+            "quick": [("default", "frombin", 1500), ("default", "acc", 1200), ("embedded", "frombin", 600),
+                      ("embedded", "acc", 600), ("default", "fmt", 300)],
+            "thorough": [("default", "frombin", 30000), ("default", "acc", 30000), ("embedded", "frombin", 10000),
+                         ("embedded", "acc", 10000), ("naive", "acc", 10000), ("unsafe", "frombin", 10000),
+                         ("unsafe", "acc", 10000), ("default-dev", "acc", 5000), ("default", "fmt", 10000)],
+        },
+        "assumptions": ["bitfield-struct accessors (q1ratio/q2ratio) are third-party generated code; swept over all "
+                        "256 Q-ratio bytes by the acc stream"],
+    },
+    "C14": {
+        "modules": [T + "C14", T + "C04"],
+        "theorems": [(T + "C14.store_into_bytes_spec", T + "C14"),
+                     (T + "C14.store_into_str_bytes_spec", T + "C14"),
+                     (T + "C04.encode_eq_spec", T + "C04"), (T + "C04.tables", T + "C04")],
+        "spec_is_property": True,
+        "streams": {
+            "quick": [(c, "store", 6) for c in ["default", "optdef", "embedded", "quarter", "hexsimd-only"]],
+            "thorough": [(c, "store", 200) for c in ["default", "optdef", "embedded", "quarter", "hexsimd-only",
+                                                      "naive", "unsafe", "default-dev"]],
+        },
+        "rule": "store: for every variant and form (binary, hex, hex+prefix) every buffer length 0..N+64 with a "
+                "sentinel pattern, then boundary lengths for further random hashes",
+        "assumptions": ["hex_simd::encode writes only the 2*len bytes of its output (contract); checked by the "
+                        "sentinel pattern in configurations default and hexsimd-only"],
+    },
 }
